@@ -153,7 +153,7 @@ def ifexp(c, fa, fb, pure):
 
 def in_(x, c):
   if isinstance(x, (SymInt, SymBool)):
-    if isinstance(c, (tuple, list, set, frozenset, dict, range)):
+    if type(c) in (tuple, list, set, frozenset, dict, range):        # exact types only: subclasses may override membership
       if isinstance(c, range): return And(x >= c.start, x < c.stop) if c.step == 1 else Or(*[(x == k) for k in c])
       ks = [k for k in c if isinstance(k, (int, SymInt, SymBool))]
       return Or(*[(x == k) for k in ks])
